@@ -67,6 +67,16 @@ func (sc *Scenario) Materialize(root string, resultDir string) ([]string, error)
 	if err := sc.writeWeather(wdir); err != nil {
 		return nil, err
 	}
+	if sc.PrecipCorr {
+		var pb strings.Builder
+		pb.WriteString("Mo Corr\n")
+		for m := 0; m < 12; m++ {
+			fmt.Fprintf(&pb, "%2d %4.2f\n", m+1, sc.PrecoFactors[m])
+		}
+		if err := os.WriteFile(filepath.Join(wdir, "preco.txt"), []byte(strings.TrimRight(pb.String(), "\n")), 0644); err != nil {
+			return nil, err
+		}
+	}
 	args := []string{"project=" + p, "plotNr=" + sc.PlotNr, "poligonID=" + sc.Polygon, "fcode=" + sc.Weather.Code,
 		"resultfolder=" + resultDir}
 	args = append(args, sc.ExtraArgs...)
